@@ -67,7 +67,7 @@ def run(ctx):
                     continue
                 method = str(rng.choice(['ALL', 'LEAFS']))
                 max_dist = None if rng.random() < 0.5 else float(rng.choice([10, 40, 120]))
-                min_size = None if rng.random() < 0.7 else int(rng.integers(2, 5))
+                min_size = None if rng.random() < 0.6 else (int(rng.integers(2, 5)) if rng.random() < 0.4 else int(rng.choice([len(ns_) for ns_ in cc.values()])))   # often exactly the size of a fragment
                 use_mask = rng.random() < 0.25
                 mask = sorted(int(v) for v in rng.choice(ids, size=max(2, len(ids) // 2), replace=False)) if use_mask else None
                 drop = bool(rng.random() < 0.2)
